@@ -743,6 +743,34 @@ def run(ctx):
             ctx.ob("R09.5", "%s|State.isFirstEntry.%s" % (fn.path, meth or kind), ok, line_of(n), "%s writes State.isFirstEntry" % fn.path)
     ctx.guard("R09.5", r5)
 
+    # ------------------------------------------------------------------------------------------ R09.6
+    ctx.rule("R09.6", "In() in <onexit> content sees the configuration of that moment: Fsm::exitStates removes each state from "
+                      "GlobalData.configuration in the very loop iteration that runs the state's onexit content, after that content and "
+                      "unconditionally (W3C: for s in statesToExit: run onexit; cancelInvoke; configuration.delete(s)) - not in a batch "
+                      "afterwards")
+
+    def r6():
+        ex = F.fn(FSMP + "exitStates")
+        dels = [par for fn, n, kind, meth, par in mutations_of_field(F, "GlobalData", "configuration")
+                if (fn.path == ex.path or fn.parent_path == ex.path) and meth == "delete"]
+        ctx.exact("R09.6", "configuration.delete sites in exitStates", len(dels), 1)
+        execs = ex.calls(FSMP + "executeContent")
+        ctx.floor("R09.6", "executeContent calls in exitStates", len(execs), 1)
+        idx6 = hirq.order_index(ex)
+        for d in dels:
+            node = next((x for x in ex.walk() if x.get("k") == "mcall" and x.get("m") == "delete" and x.get("s") == d.get("s")), d)
+            loops = hirq.enclosing_loops(ex, node)
+            outer = loops[-1] if loops else None
+            lv = [b for b, info in ex.bindings().items() if info.get("from") == "for" and info.get("node") is outer] if outer is not None else []
+            arg_ok = len(loops) == 1 and local_of(hirq.peel(node["a"][0]), NO_T) in lv
+            same_iter = bool(execs) and all(hirq.enclosing_loops(ex, c)[-1:] == [outer] and idx6[id(c)] < idx6[id(node)] for c in execs)
+            gts = [g for g in hirq.guards(ex, node) if outer is not None and any(a is outer for a in ex.ancestors(g["node"]))]
+            ctx.ob("R09.6", site_key(ex, "state leaves the configuration in its own exit iteration, after its onexit content"),
+                   arg_ok and same_iter and not gts, line_of(node),
+                   "delete(loop state) directly in the exit loop: %s; onexit content runs earlier in the same loop: %s; conditions inside the loop: %d" % (
+                       arg_ok, same_iter, len(gts)))
+    ctx.guard("R09.6", r6)
+
 
 def table_lookup(x):
     """(Owner, field) if x is `<owner>.<field>.get(..)`."""
